@@ -85,7 +85,8 @@ Inductive ev :=
 | EInsertNull               (* INSERT INTO revision (revision_id) VALUES (null) *)
 | EUpdateRev (ok : bool)    (* UPDATE revision SET revision_id = :id *)
 | EStmt (raw : string) (ok : bool)   (* a statement of a migration step *)
-| ECreateAll.               (* Base.metadata.create_all *)
+| ECreateAll                (* Base.metadata.create_all *)
+| EInsertRev.               (* INSERT INTO revision (revision_id) VALUES (:id)  -- repaired setter only *)
 
 (* ---------- identifiers ---------- *)
 
@@ -212,7 +213,57 @@ Section Migrator.
 
   Definition run_steps_schema (ss : list step) (s : schema) : schema :=
     d_schema (cur (fst (run_steps ss (mkconn (mkdb s RNoTable 0) None)))).
+
+  (* ---------- the same functions with the proposed repairs switched on by `v` ---------- *)
+  (* (v = all false is the code as pinned, see the variant_none lemmas of Proofs4) *)
+
+  Definition set_revision_v (v : variant) (rid : string) (c : conn) : conn * list ev :=
+    match d_rev (cur c) with
+    | RNoTable => (dml (set_rev (RRow (Some rid))) (init_rev_table c),
+                   [EUpdateRev false; ESelectOne false; ECreateRev; EInsertNull; EUpdateRev true])
+    | REmpty => if v_insert v
+                then (dml (set_rev (RRow (Some rid))) c, [EUpdateRev true; EInsertRev])
+                else (dml (fun d => d) c, [EUpdateRev true])
+    | RRow _ => (dml (set_rev (RRow (Some rid))) c, [EUpdateRev true])
+    end.
+
+  Definition migrate_v (v : variant) (ss : list step) (c : conn) : conn * list ev :=
+    let '(c1, r, tr1) := get_revision c in
+    match get_steps ss r with
+    | [] => (c1, tr1)
+    | todo =>
+        let (c2, tr2) := run_steps todo c1 in
+        let (c3, tr3) := set_revision_v v (rev_id ss) c2 in
+        (if v_commit v then commit c3 else c3, tr1 ++ tr2 ++ tr3 ++ [ESelectRev true])
+    end.
+
+  Definition open_database_v (v : variant) (orm : schema) (ss : list step) (f : file) : conn * list ev :=
+    match f with
+    | File d => migrate_v v ss (mkconn d None)
+    | NoFile =>
+        let c := mkconn (mkdb orm RNoTable 0) None in
+        if v_stamp_new v
+        then let (c', tr) := set_revision_v v (rev_id ss) c in (commit c', ECreateAll :: tr)
+        else (c, [ECreateAll])
+    end.
+
+  Definition run_session_v (v : variant) (orm : schema) (ss : list step) (f : file) (ops : list op) : sobs * file :=
+    let (c, tr) := open_database_v v orm ss f in
+    let c' := fold_left do_op ops c in
+    (mksobs tr (cur c) (cur c') (disk (rollback c')), File (disk (rollback c'))).
+
+  Fixpoint run_history_v (v : variant) (orm : schema) (ss : list step) (f : file) (h : list (list op)) : list sobs * file :=
+    match h with
+    | [] => ([], f)
+    | ops :: h' =>
+        let (o, f') := run_session_v v orm ss f ops in
+        let (os, f'') := run_history_v v orm ss f' h' in
+        (o :: os, f'')
+    end.
 End Migrator.
+
+Definition variant_none : variant := mkvariant false false false.
+Definition variant_all : variant := mkvariant true true true.
 
 (* the migration-step statements a trace executed (all of them / those that took effect) *)
 Definition stmts_of (tr : list ev) : list string :=
@@ -311,6 +362,7 @@ Definition ev_eqb (a b : ev) : bool :=
   | EUpdateRev x, EUpdateRev y => Bool.eqb x y
   | EStmt r x, EStmt s y => String.eqb r s && Bool.eqb x y
   | ECreateAll, ECreateAll => true
+  | EInsertRev, EInsertRev => true
   | _, _ => false
   end.
 
@@ -356,7 +408,7 @@ Definition check_case (c : case) : bool :=
   | CToyGetSteps tab ss rid ids =>
       list_eqb String.eqb (map (step_id (table_md5 tab)) (get_steps (table_md5 tab) ss rid)) ids
   | CHistory start h impl =>
-      sessions_ok (start_db start) (fst (run_history real_md5 orm_schema steps start h)) impl
+      sessions_ok (start_db start) (fst (run_history_v real_md5 code_variant orm_schema steps start h)) impl
   | CToyHistory tab ss start h impl =>
-      sessions_ok start (fst (run_history (table_md5 tab) [] ss (File start) h)) impl
+      sessions_ok start (fst (run_history_v (table_md5 tab) code_variant [] ss (File start) h)) impl
   end.
